@@ -1,5 +1,5 @@
 import collections.abc
-from collections.abc import Collection, Iterable, Mapping, Sequence
+from collections.abc import Collection, Container, Iterable, Mapping, Sequence
 from dataclasses import dataclass
 from enum import Enum
 from os import PathLike
@@ -76,6 +76,17 @@ class ForwardRefEvaluatingProvider(LocatedRequestDelegatingProvider):
 
 def _is_exact_zero_or_one(arg):
     return type(arg) is int and arg in (0, 1)
+
+
+class _TypedMembership:
+    """Membership test that distinguishes ``True`` from ``1`` and ``False`` from ``0``"""
+    __slots__ = ("_typed_values", )
+
+    def __init__(self, typed_values: Collection):
+        self._typed_values = typed_values
+
+    def __contains__(self, item):
+        return (type(item), item) in self._typed_values
 
 
 @dataclass
@@ -254,35 +265,32 @@ class LiteralProvider(LoaderProvider, DumperProvider):
         bytes_loader: Loader[bytes],
     ) -> Loader:
         cases = tuple(case for _, case in typed_cases)
+        allowed_values: Container
         if strict_coercion and any(isinstance(arg, bool) or _is_exact_zero_or_one(arg) for arg in cases):
             allowed_values_with_types = self._get_allowed_values_collection(
                 [(type(el), el) for el in cases],
             )
+            # enum members and bytes loaded by their own loaders must be checked by type as well
+            allowed_values = _TypedMembership(allowed_values_with_types)
 
             # since True == 1 and False == 0
-            def literal_loader_sc(data):
+            def literal_loader(data):
                 try:
                     if (type(data), data) in allowed_values_with_types:
                         return data
                 except TypeError:  # unhashable data can not be equal to a Literal value
                     pass
                 raise BadVariantLoadError(allowed_values_repr, data)
+        else:
+            allowed_values = self._get_allowed_values_collection(cases)
 
-            return self._get_literal_loader_with_enum(
-                literal_loader_sc,
-                enum_loaders,
-                allowed_values_with_types,
-            )
-
-        allowed_values = self._get_allowed_values_collection(cases)
-
-        def literal_loader(data):
-            try:
-                if data in allowed_values:
-                    return data
-            except TypeError:  # unhashable data can not be equal to a Literal value
-                pass
-            raise BadVariantLoadError(allowed_values_repr, data)
+            def literal_loader(data):
+                try:
+                    if data in allowed_values:
+                        return data
+                except TypeError:  # unhashable data can not be equal to a Literal value
+                    pass
+                raise BadVariantLoadError(allowed_values_repr, data)
 
         if bytes_cases and not enum_loaders:
             return self._get_literal_loader_with_bytes(literal_loader, allowed_values, bytes_loader)
